@@ -153,6 +153,10 @@ def o_window(h):
                 out.append(('request-id-not-consecutive', 'IKE_SA %s issued request ID %d after %d' % (key.hex(), hd.message_id, last)))
             if hd.message_id > last:
                 ids.append(hd.message_id)
+            # 5. one Message ID, one request: an ID that was used for one exchange type is never used for another
+            if hd.message_id in ex and ex[hd.message_id] != int(hd.exchange_type) and not (int(hd.exchange_type) == 34 or ex[hd.message_id] == 34):
+                out.append(('request-id-reused', 'IKE_SA %s used request ID %d for exchange type %d and then for %d: two different requests '
+                            'with one Message ID' % (key.hex(), hd.message_id, ex[hd.message_id], int(hd.exchange_type))))
             ex[hd.message_id] = int(hd.exchange_type)
         else:
             # a response carries the exchange type and the Message ID of a request this IKE_SA received
@@ -184,14 +188,30 @@ VARIANTS = S.CONF_VARIANTS + [{'ike_lifetime': 60, 'ike_lifetime_b': 5000, 'dpd'
 def directed_rekeys(ctx, res):
     """IKE_SA rekey started by either end of an IKE_SA established by either end, then exchanges in both directions on
     the successor (CHILD_SA rekey from each side, DPD), every message delivered twice"""
-    for estab in 'AB':
-        for rekeyer in 'AB':
+    for estab, rekeyer, retry in [(e, r, False) for e in 'AB' for r in 'AB'] + [('A', 'A', True), ('B', 'A', True), ('A', 'B', True)]:
+        if True:
             conf = {'dpd': 2000, 'ike_lifetime': 100 if rekeyer == 'A' else 5000, 'ike_lifetime_b': 100 if rekeyer == 'B' else 5000}
+            if retry:
+                # the rekey is refused once with INVALID_KE_PAYLOAD; while the retried request is in flight the rekeying end gets work to do
+                conf.update({'dh': ['19', '20'], 'dh_b': ['20', '19']})
             seed = ctx.rng.randrange(1 << 30)
             with CP.History(seed, trace=ctx.driver is not None, **conf) as h:
                 h.oracles = list(ORACLES)
                 h.establish(estab)
+                h.settle()
                 h.op('tick', 106)
+                if retry:
+                    for _ in range(2):
+                        if h.w.net:
+                            h.op('deliver', h.w.net[0].id)
+                    ep = h.w.A if rekeyer == 'A' else h.w.B
+                    kids = [c for s in ep.sas() for c in s.child_sas]
+                    h.op('acquire', rekeyer, 4000)
+                    if kids:
+                        h.op('expire', rekeyer, kids[0].inbound_spi, False)
+                    for s in ep.sas():
+                        s.start_dpd_at = h.w.now - 1        # the liveness timer is due as well
+                    h.op('tick', 0.5)
                 n = 0
                 while h.w.net and n < 40:
                     dg = h.w.net[0]
@@ -215,7 +235,7 @@ def directed_rekeys(ctx, res):
                                        'successor did not complete: %s' % (rekeyer, estab, stuck or 'IKE_SA lost'), len(h.ops) - 1))
                 res.evaluations += len(h.ops)
                 res.nontrivial.add(tuple(h.ops))
-                res.count('directed:ike-rekey-by-%s-established-by-%s' % (rekeyer, estab))
+                res.count('directed:ike-rekey-by-%s-established-by-%s%s' % (rekeyer, estab, '-with-retry' if retry else ''))
                 for key, what, at in h.findings[:2]:
                     res.fail(key, what, {'seed': seed, 'conf': conf, 'faults': None, 'ops': S.ser_ops(h.ops[:at + 1]), 'oracle': key})
                 if h.tr is not None:
